@@ -52,18 +52,18 @@ type c17Item struct {
 }
 
 type c17Sim struct {
-	r     *simkit.Run
-	cfg   c17Cfg
-	gate  *simkit.Gate
-	mu    sync.Mutex
-	calls []*c17Batch
-	items map[string]*c17Item
-	emitted map[string]int
-	ids   *gen.IDs
-	groupsSeen map[string]bool
+	r           *simkit.Run
+	cfg         c17Cfg
+	gate        *simkit.Gate
+	mu          sync.Mutex
+	calls       []*c17Batch
+	items       map[string]*c17Item
+	emitted     map[string]int
+	ids         *gen.IDs
+	groupsSeen  map[string]bool
 	parkedSince map[string]bool // groups whose sink call is/was parked while items were pending
-	shut  *simkit.Task
-	shutFired bool
+	shut        *simkit.Task
+	shutFired   bool
 }
 
 func c17Config(tp *simkit.Tape) c17Cfg {
